@@ -10,7 +10,7 @@ META = {
     'trusted_base': ['RVC executor + exact normal form + z3 for the geometry obligations (real arithmetic; abs / max / double->Index truncation by contract)', 'CBMC 6.11 C++ front end, SAT back end, IEEE-754 encoding', 'stub classes standing for nblistgrid.h / Eigen / NDimVector (member names as in the header)'],
     'assumptions': ['|r . norm| < 2^62 (beyond that the float-to-index conversion in getCell is undefined, like every (Index)floor(x))'],
     'not_decided': ['three-body grid neighbour sets beyond the enumerated counts (the pair grid is decided for all counts)', 'the COMPOSITION of the geometry lemmas (count, reciprocal normals, projection < 1, floor, getCell congruence, neighbour sets) into "every pair within the cutoff is examined" is a paper argument over machine-checked pieces', 'exactly-once delivery through PairList::FindPair (std::map)',
-                    'the simple O(N^2) lists, the three-body enumeration, exclusions (std::list / std::map)', 'in the CBMC runs cross/normalize inside InitializeGrid are nondeterministic stubs (the geometry is decided separately on the AST, real arithmetic)'],
+                    'the simple O(N^2) lists, the three-body enumeration; ExclusionList::RemoveExclusion and the use of IsExcluded inside the searches (insert / query / ExcludeList are decided for 3 beads)', 'in the CBMC runs cross/normalize inside InitializeGrid are nondeterministic stubs (the geometry is decided separately on the AST, real arithmetic)'],
 }
 TARGETS = {'NBListGrid': 'csg/src/libcsg/nblistgrid.cc', 'NBListGrid_3Body': 'csg/src/libcsg/nblistgrid_3body.cc'}
 
@@ -323,6 +323,124 @@ def replay_pairs(obs):
         o['replay'] = rep
 
 
+from vlib import rvc
+
+
+class BeadMap(list):
+    """std::map<Bead *, exclusion_t *> by its contract: at most one entry per key (key = object identity), find / end / operator[] (default-inserting)"""
+    def call(s, name, args):
+        if name == 'find':
+            for i, e in enumerate(s):
+                if e['first'] is args[0]:
+                    return rvc.ListIt(s, i)
+            return rvc.ListIt(s, len(s))
+        if name == 'end':
+            return rvc.ListIt(s, len(s))
+        raise rvc.Unsupported('std::map::' + name)
+    def index_ref(s, idx):
+        k = idx[0]
+        hit = [e for e in s if e['first'] is k]
+        if not hit:
+            e = {'first': k, 'second': None}
+            list.append(s, e)
+            hit = [e]
+        e = hit[0]
+        return rvc.Ref(lambda: e['second'], lambda v: e.__setitem__('second', v))
+
+
+def job_exclusions(seed):
+    """ExclusionList: abstract view = a set of unordered bead pairs.  InsertExclusion(a, b) in either argument order adds {a, b} and nothing else; IsExcluded(x, y) is
+    true exactly for the pairs of the view, in either argument order; ExcludeList(l) adds every pair of l whatever the order of l.  InsertExclusion, IsExcluded,
+    GetExclusions and the instantiated ExcludeList are executed from the AST (std::map / std::list / std::find / std::swap by their contracts); bead ids are
+    arbitrary distinct numbers, not positions."""
+    from vlib import rvc, native
+    from vlib.rvc import Exec
+    rvc.reset()
+    rel = 'csg/src/libcsg/exclusionlist.cc'
+    fns = rvc.functions(rvc.ast(rel, 'ExclusionList::'))
+    for need in ('InsertExclusion', 'IsExcluded', 'GetExclusions', 'ExcludeList'):
+        if need not in fns:
+            raise core.Undecided('front end: ExclusionList::%s not found' % need)
+    ids = (5, 2, 9)
+    def find(a, b, x=None):
+        if isinstance(a, BeadMap):
+            return a.call('find', [b])
+        for i in range(a.i, b.i):
+            if a.lst[i] is x:
+                return rvc.ListIt(a.lst, i)
+        return rvc.ListIt(a.lst, b.i)
+    def swap(a, b):
+        va, vb = rvc.rval(a), rvc.rval(b)
+        a.set(vb); b.set(va)
+    swap.by_ref = True
+    def fresh_state():
+        beads = [{'__class__': 'Bead', 'id': i, 'mol': 0} for i in ids]
+        this = {'__class__': 'ExclusionList', 'exclusions_': [], 'excl_by_bead_': BeadMap()}
+        return beads, this
+    cb = {'getId': lambda b: b['id'], 'getMoleculeId': lambda b: b['mol'], 'find': find, 'swap': swap, 'exec_functions': (),
+          'construct': lambda ex_, n, ty, args: ({'__class__': 'exclusion_t', 'atom_': None, 'exclude_': []} if 'exclusion_t' in ty else NotImplemented)}
+    def call(this, name, *args):
+        ex = Exec({}, cb, fns, this)
+        m = [f for f in fns[name] if len(rvc.params_of(f)) == len(args) and rvc.body_of(f)]
+        if name == 'InsertExclusion':
+            m = [f for f in m if 'Bead *, votca::csg::Bead *' in f['type']['qualType'] or f['type']['qualType'].count('Bead *') == 2]
+        if not m:
+            raise rvc.Unsupported('no body of ExclusionList::%s with %d parameters' % (name, len(args)))
+        return ex.call_fn(m[-1], list(args), this)
+    def view_of(this, beads):
+        return {(i, j): bool(call(this, 'IsExcluded', beads[i], beads[j])) for i in range(3) for j in range(3) if i != j}
+    F = 'ExclusionList::InsertExclusion / IsExcluded'
+    mfs = [{'name': 'ExclusionList::' + k, 'file': rel if k != 'ExcludeList' else 'csg/include/votca/csg/exclusionlist.h', 'ast_nodes': rvc.node_count(fns[k][0])} for k in ('InsertExclusion', 'IsExcluded', 'GetExclusions', 'ExcludeList')]
+    obs = []
+    pairs = [(i, j) for i in range(3) for j in range(3) if i != j]
+    bad, runs = None, 0
+    for seq in [(p_,) for p_ in pairs] + [(p_, q_) for p_ in pairs for q_ in pairs] + [((0, 0), p_) for p_ in pairs]:
+        beads, this = fresh_state()
+        view = set()
+        for (i, j) in seq:
+            call(this, 'InsertExclusion', beads[i], beads[j])
+            if i != j:
+                view.add(frozenset((i, j)))
+            runs += 1
+            got = view_of(this, beads)
+            wrong = [(ids[a], ids[b], v) for (a, b), v in got.items() if v != (frozenset((a, b)) in view)]
+            if wrong and bad is None:
+                bad = {'bead_ids': ids, 'inserted (ids, in call order)': [(ids[a], ids[b]) for a, b in seq], 'IsExcluded wrong for (id1, id2, answer)': wrong[:4]}
+    o = Ob('C03.exclusions/insert-query', F, 'after any sequence of InsertExclusion calls IsExcluded(x, y) holds exactly for the inserted unordered pairs, in either argument order (bead ids arbitrary distinct numbers)', 'RVC',
+           'symbolic execution (concrete lists, %d states)' % runs, core.REFUTED if bad else core.BOUNDED, 0, '', witness=bad, bound='3 beads of one molecule, <= 2 insertions')
+    o['functions'] = mfs
+    obs.append(o)
+    bad = None
+    import itertools as _it
+    for perm in _it.permutations(range(3)):
+        for k in (2, 3):
+            beads, this = fresh_state()
+            l = [beads[i] for i in perm[:k]]
+            call(this, 'ExcludeList', l)
+            got = view_of(this, beads)
+            want = set(frozenset(c) for c in _it.combinations(perm[:k], 2))
+            wrong = [(ids[a], ids[b], v) for (a, b), v in got.items() if v != (frozenset((a, b)) in want)]
+            if wrong and bad is None:
+                bad = {'bead_ids': ids, 'list (ids, in order)': [ids[i] for i in perm[:k]], 'IsExcluded wrong for (id1, id2, answer)': wrong[:4]}
+    o = Ob('C03.exclusions/exclude-list', 'ExclusionList::ExcludeList', 'ExcludeList(l) excludes every pair of beads of l, whatever the order of the beads in l (a bond written "2 1", an angle "4 3 2"), and nothing else', 'RVC',
+           'symbolic execution (concrete lists)', core.REFUTED if bad else core.BOUNDED, 0, '', witness=bad, bound='lists of 2 and 3 beads, every order')
+    o['functions'] = mfs
+    obs.append(o)
+    if any(x['status'] == core.REFUTED for x in obs):
+        try:
+            exe = native.build('C03.exclusions', open(os.path.join(core.VERIF, 'contracts', 'C03', 'replay_exclusions.cc')).read(), [], sanitize=False, opt='-O1', libs=native.libs())
+            rc, out, err = native.execute(exe, [], timeout=60)
+            for x in obs:
+                if x['status'] == core.REFUTED:
+                    x['replay'] = {'reproduced': rc == 1, 'cmd': exe, 'rc': rc, 'stdout': (out or '')[-600:], 'stderr': (err or '')[-300:], 'input_from': 'fixed input in the domain of the contract',
+                                   'against': 'real ExclusionList / Topology (libvotca_csg from the working tree): bonds listed with descending bead ids, then IsExcluded and a pair search with exclusions'}
+        except core.Undecided as e:
+            for x in obs:
+                if x['status'] == core.REFUTED:
+                    x['replay'] = {'reproduced': False, 'error': str(e)}
+    return obs
+
+
 def run(tier, seed, only=None):
     rng = (1, 2, 3) if tier == 'quick' else (1, 2, 3, 4)
     jobs = []
@@ -337,6 +455,7 @@ def run(tier, seed, only=None):
         # (3,3,3) takes ~10 min for the pair grid and does not finish for the three-body grid (27 self-including neighbours): left out there
         confs3 = [c for c in confs if c != (3, 3, 3) and max(c) <= 3] 
         confs = [c for c in confs if max(c) <= 3] + [(4, 1, 2), (2, 4, 1), (1, 2, 4)]
+    jobs += [(job_exclusions, (seed,))]
     jobs += [(job_initgrid, ('NBListGrid', a, b, c)) for a, b, c in confs]
     jobs += [(job_initgrid, ('NBListGrid_3Body', a, b, c)) for a, b, c in confs3]
     jobs += [(job_geometry, (cls, seed)) for cls in TARGETS]
